@@ -209,7 +209,16 @@ EpCapturable(pos, f) ==
 \* engine convention: recorded exactly when an enemy pawn stands beside the pushed pawn
 EpOK(pos) == pos.ep < 8 => EpGeom(pos, pos.ep) /\ EpCapturable(pos, pos.ep)
 
+\* material a game can reach: at most 8 pawns a side, every extra piece paid for by a missing pawn
+Count(b, p) == Cardinality({ s \in Sq : b[s] = p })
+MaterialOK(b) ==
+  \A side \in Sides :
+    LET n(k) == Count(b, Pc(side, k))
+        extra(k, base) == IF n(k) > base THEN n(k) - base ELSE 0
+    IN n("P") <= 8 /\ extra("Q", 1) + extra("R", 2) + extra("B", 2) + extra("N", 2) <= 8 - n("P")
+
 Sane(pos) ==
+  /\ MaterialOK(pos.board)
   /\ Cardinality(KingSquares(pos.board, White)) = 1
   /\ Cardinality(KingSquares(pos.board, Black)) = 1
   /\ \A s \in (0..7) \cup (56..63) : pos.board[s] \notin {"P", "p"}
